@@ -6,7 +6,7 @@ import ast
 from ..effects import iteration_mutation_conflicts, transitive_mutations
 from ..grammar import Grammar, PARSER
 from ..model import AnalysisError, AnchorMissing, dotted, find_assign, last_attr, mangle, unparse
-from ..paths import paths, calls_on_path
+from ..paths import paths, calls_on_path, cond_atoms
 from .c08 import select_stmts, p_index
 
 TITLE = "imports, metadata, loader and linker"
@@ -62,12 +62,9 @@ def table_removals(tree):
     return out
 
 
-def check_linker_reads_only(model, col, rule):
-    """Linking does not change the modules it is given: a module object can be linked into several programs (and stays the
-    compiled module its file holds), so the linker may read a module's tables but must not call a state-changing method of
-    an IR object or write one of its attributes (e.g. binding call targets *on the instructions*: the last Link() wins)."""
+def ir_writer_methods(model):
+    """{method name: class} of the methods of the IR classes that write their object's state"""
     from ..effects import direct_mutations, rebinds
-    from ..state import root_name
 
     skip = {"Linker", "Program", "ModuleLoader", "FilesystemModuleLoader", "MemoryModuleLoader", "InstructionPrinter"}
     writers = {}
@@ -80,7 +77,17 @@ def check_linker_reads_only(model, col, rule):
             if direct_mutations(ci, m) or rebinds(ci, m):
                 writers.setdefault(name, ci.name)
     if "AddInstruction" not in writers and "SetReference" not in writers:
-        raise AnalysisError("R16.3: the IR writer-method table is empty (expected e.g. AddInstruction / SetReference)")
+        raise AnalysisError("the IR writer-method table is empty (expected e.g. AddInstruction / SetReference)")
+    return writers
+
+
+def check_linker_reads_only(model, col, rule):
+    """Linking does not change the modules it is given: a module object can be linked into several programs (and stays the
+    compiled module its file holds), so the linker may read a module's tables but must not call a state-changing method of
+    an IR object or write one of its attributes (e.g. binding call targets *on the instructions*: the last Link() wins)."""
+    from ..state import root_name
+
+    writers = ir_writer_methods(model)
     lk = model.cls(IR, "Linker")
     n = 0
     for m in lk.methods.values():
@@ -224,6 +231,26 @@ def run(model, col, tier):
     loads = [c for c in ast.walk(link) if isinstance(c, ast.Call) and last_attr(c) == "Load"]
     col.floor("R16.3", "loader.Load call sites in Link", len(loads), 1)
     check_linker_reads_only(model, col, "R16.3")
+    # the runner looks the entry point up in the *linked program* - a function of an imported module is as good an entry
+    # point as one of the root module
+    nslr_run = model.func("nslr.py", "run")
+    progs = {t.id for n in ast.walk(nslr_run) if isinstance(n, ast.Assign) and isinstance(n.value, ast.Call) and last_attr(n.value) == "Link" for t in n.targets if isinstance(t, ast.Name)}
+    lookups = []
+    for n in ast.walk(nslr_run):
+        tbl = None
+        if isinstance(n, ast.Subscript) and isinstance(n.value, ast.Attribute) and n.value.attr == "Functions" and "FUNCTION" in unparse(n.slice):
+            tbl = n.value.value
+        elif isinstance(n, ast.Call) and last_attr(n) == "get" and isinstance(n.func.value, ast.Attribute) and n.func.value.attr == "Functions" and n.args and "FUNCTION" in unparse(n.args[0]):
+            tbl = n.func.value.value
+        elif isinstance(n, ast.Compare) and len(n.ops) == 1 and isinstance(n.ops[0], (ast.In, ast.NotIn)) and "FUNCTION" in unparse(n.left) \
+                and isinstance(n.comparators[0], ast.Attribute) and n.comparators[0].attr == "Functions":
+            tbl = n.comparators[0].value
+        if tbl is not None:
+            lookups.append((n, unparse(tbl)))
+    wrong = [(n, t) for n, t in lookups if t not in progs]
+    col.check(bool(lookups) and not wrong, "R16.3", "nslr.py::run finds the entry point in the linked program", f"{len(lookups)} lookup(s) by the function's name, all in {sorted(progs)}",
+              (f"`{' '.join(unparse(wrong[0][0]).split())[:70]}` looks the function up in `{wrong[0][1]}`, which is not the result of Link()" if wrong else "no lookup of the entry point found")
+              + ": a function defined in an imported module is reported as not found although the linked program has it", "nslr.py", wrong[0][0] if wrong else nslr_run)
     for c in loads:
         namev = c.args[0]
         if not isinstance(namev, ast.Name):
@@ -352,6 +379,22 @@ def run(model, col, tier):
                     col.check((unparse(t.slice), unparse(t.value)) in guards, "R16.4", f"{IR}::Linker.AddModule insertion into {t.value.attr}",
                               "preceded by a not-in test that rejects a duplicate", f"`{unparse(e.node)}` is not guarded by a not-in test: a second definition silently replaces the first", IR, e.node)
     col.floor("R16.4", "table insertions in AddModule", ins, 2)
+    # ... and every entry is either entered or the link fails: no path of a merge loop's body leaves an entry out (first-wins
+    # `setdefault`, a `continue` for some names), otherwise which definition a program gets depends on the order of linking
+    for lp_ in [n for n in ast.walk(addm) if isinstance(n, ast.For)]:
+        what = next((w for w in ("Functions", "Globals") if f".{w}" in unparse(lp_.iter)), None)
+        if what is None:
+            continue
+        left_out = None
+        for evs, status in paths(lp_.body):
+            if status == "raise":
+                continue
+            stored = any(e.kind == "stmt" and isinstance(e.node, ast.Assign) and isinstance(e.node.targets[0], ast.Subscript) and isinstance(e.node.targets[0].value, ast.Attribute)
+                         and e.node.targets[0].value.attr == merged.get(what) for e in evs)
+            if not stored:
+                left_out = left_out or [(k[:50], v) for k, v in cond_atoms(evs).items()][:3] or ["<unconditionally>"]
+        col.check(left_out is None, "R16.4", f"{IR}::Linker.AddModule enters every entry of module.{what}", "each entry is stored or the duplicate test fails",
+                  f"under {left_out} an entry of module.{what} is not stored (and nothing is raised): two modules that both define it link to whichever was added first", IR, lp_)
     # ---------------- R16.5 -------------------------------------------------------
     ctm = ctm0  # v_Module of the type pass, private helpers read in place
     reads = {}
